@@ -281,12 +281,13 @@ func trunc(s string) string {
 }
 
 func (e *engine) runC07() {
-	e.rep.Rule = "stream-establish headers: honest (pid length classes around varint boundaries × chunkings × trailing payload) and malformed (zero/oversize/bad varint/truncated/bad protobuf/empty or non-UTF-8 pid/unknown+duplicate fields); every class on a reader that ends with a bare (0, EOF) read AND on one that returns its final bytes together with io.EOF; sentinels: the header alone (opener wrote and closed) in one read / split in the prefix / split in the body ending with data+EOF, and cut at every offset ending the same way; distinct = distinct op line"
+	e.rep.Rule = "stream-establish headers: honest (pid length classes around varint boundaries × chunkings × trailing payload) and malformed (zero/oversize/bad varint/truncated/bad protobuf/empty or non-UTF-8 pid/unknown+duplicate fields); every class on a reader that ends with a bare (0, EOF) read AND on one that returns its final bytes together with io.EOF; sentinels: the header alone (opener wrote and closed) in one read / split in the prefix / split in the body ending with data+EOF, and cut at every offset ending the same way; each marshalled header is kept while the next one is marshalled and must not change; distinct = distinct op line"
 	e.rep.Require("hdr.ok", "hdr.io", "hdr.badPrefix", "hdr.badLen", "hdr.badProto", "hdr.badPid",
-		"hdr.ok.last", "hdr.io.last", "hdr.badPrefix.last", "hdr.badLen.last", "hdr.badProto.last", "hdr.badPid.last")
+		"hdr.ok.last", "hdr.io.last", "hdr.badPrefix.last", "hdr.badLen.last", "hdr.badProto.last", "hdr.badPid.last", "marshal.retained")
 	max := int(transport_controller.VerifStreamEstablishMaxPacketSize())
 	lens := []int{1, 2, 3, 4, 5, 60, 124, 125, 126, 127, 128, 129, 130, 200, 16379, 16380, 16381, 16382, 16383, 16384, 16390, 40000, max - 5, max - 4}
 	nHonest := 120 * e.a.Scale
+	var prevHdr, prevWant, prevPid []byte
 	for i := 0; i < nHonest; i++ {
 		var n int
 		if i < len(lens)*3 {
@@ -302,6 +303,14 @@ func (e *engine) runC07() {
 			}
 		}
 		hdr := transport_controller.VerifMarshalStreamEstablishHeader(transport_controller.NewStreamEstablish(protocol.ID(pid)))
+		// history independence of the opener side: the bytes marshalled for the previous ID (which a
+		// writer may still be handing to a slow stream) are not touched by marshalling a later header
+		if prevHdr != nil && string(prevHdr) != string(prevWant) {
+			e.rep.Disagree(lib.Disagreement{Op: "framing.marshal.retained pid=" + lib.Hex(prevPid) + " next=" + lib.Hex(pid), Model: trunc("ok " + lib.Hex(prevWant)), Impl: trunc("ok " + lib.Hex(prevHdr)), Monitor: "confirmed",
+				What: "the header bytes returned by marshalStreamEstablishHeader for " + q(prevPid) + " changed when the header for " + q(pid) + " was marshalled: the two results share storage, so a header still being written is overwritten by the next opener's", Key: "framing.marshal:retained", Branch: "marshal.retained"})
+		}
+		e.rep.Branches["marshal.retained"]++
+		prevHdr, prevWant, prevPid = hdr, append([]byte(nil), hdr...), pid
 		// marshal agrees with the model
 		mm := e.m.Query("framing.marshal pid=" + lib.Hex(pid))
 		if mm != "ok "+lib.Hex(hdr) {
